@@ -74,12 +74,15 @@ var c06Needles = map[string]string{
 	"plain-names":             "c14keep",
 	"drop-arg":                "c14emit",
 	"module-imports":          "c14modcall",
+	"for-cond-elided":         "c14n = c14n +",
 }
 
 // c06Exact: for these changes the only possible instance is known, so a file
 // that mentions the callee is still decided if it does not hold that text.
 var c06Exact = map[string]*regexp.Regexp{
 	"plain-names": regexp.MustCompile(`c14keep\(\s*x\s*,\s*y\s*,?\s*\)`),
+	// only a loop that starts "for c14i := 0;" can be an instance
+	"for-cond-elided": regexp.MustCompile(`for\s+c14i\s*:=\s*0\s*;`),
 }
 
 var c06PkgRe = regexp.MustCompile(`(?m)^package ([A-Za-z_][A-Za-z0-9_]*)`)
@@ -245,6 +248,7 @@ func c06DrawCase(rt *rapid.T) *c06Case {
 	}
 	r.Other = []c14File{{Name: "NOTES.txt", Src: "nothing to see\n", Role: "text"}}
 	r.Verbose = rapid.IntRange(0, 2).Draw(rt, "verbose") == 0
+	r.NoFinalLF = rapid.IntRange(0, 4).Draw(rt, "noFinalLF") == 0
 	r.SkipGen = rapid.IntRange(0, 2).Draw(rt, "skipGenerated") == 0
 	r.SkipImports = rapid.IntRange(0, 3).Draw(rt, "skipImports") == 0
 	r.Args = c14DrawArgs(rt, r.Files, "args")
